@@ -72,6 +72,8 @@ SCENARIOS = {
     "harv-jl-none": ("harvester", {"num_batches": 2}, "joblib", None),
     "samp-pkl": ("sampler", {"batchsize": 2}, "pickle", "rows"),
     "samp-csv": ("sampler", {"batchsize": 1}, "csv", "rows"),
+    # a harvester that only lives in memory: no data file (used by C12)
+    "harv-mem": ("harvester", {"batchsize": 2}, None, None),
     # a runner whose function has three outputs (used by C12)
     "runner3": ("runner", {"batchsize": 2}, None, None),
     # a sampler whose table does not exist yet (used by C12)
@@ -81,7 +83,8 @@ SCENARIOS = {
 }
 
 C10_SCENARIOS = [n_ for n_ in SCENARIOS
-                 if n_ not in ("raw-bool", "samp-pkl-none", "runner3")]
+                 if n_ not in ("raw-bool", "samp-pkl-none", "runner3",
+                               "harv-mem")]
 WORKLOADS = ["sow", "resow", "grow1", "growmulti", "growmissing", "reap"]
 
 
@@ -118,6 +121,8 @@ class Scn:
         if self.kind == "runner":
             return r
         path = os.path.join(d, self.dfile)
+        if self.name == "harv-mem":
+            return xyz.Harvester(r)
         if self.kind == "harvester":
             return xyz.Harvester(r, data_name=path, engine=self.engine)
         return xyz.Sampler(r, data_name=path, engine=self.engine,
@@ -250,6 +255,15 @@ class Scn:
 
     def judge_data(self, d, earlier_rows):
         """after a completed reap / recovery: problems with the data file"""
+        if self.name == "harv-mem":
+            # (no file: the reaped data must have been merged into the
+            # harvester the reap went through)
+            far = getattr(self, "live_farmer", None)
+            if far is None:
+                return None
+            fd = far.full_ds
+            got = {} if fd is None else cmp.ds_to_dict(fd)
+            return None if got == self.new_cells() else "memory-not-merged"
         if self.kind == "harvester":
             try:
                 got = self.load_data(d)
